@@ -115,7 +115,7 @@ def mk_diagonal(rng, s, allow_zero=False):
         return None
     pool = DIAGVALS + ([0.0, 0.0] if allow_zero else [])
     vals = [rng.choice(pool) for _ in range(d)]
-    return DiagonalOperator(arr(vals, dtype_of(s)), axis_destination=-1, in_structure=s)
+    return DiagonalOperator(maybe_numpy(rng, arr(vals, dtype_of(s))), axis_destination=-1, in_structure=s)
 
 
 def mk_diagonal_first(rng, s):
@@ -219,6 +219,11 @@ def mk_pack(rng, s):
     return PackOperator(jnp.asarray(mask), s)
 
 
+def maybe_numpy(rng, a):
+    """a quarter of the parameter arrays are handed over as the caller's own (mutable) NumPy array"""
+    return np.array(a) if rng.random() < 0.25 else a
+
+
 def mk_qurot(rng, s):
     if not is_stokes(s):
         return None
@@ -227,7 +232,7 @@ def mk_qurot(rng, s):
         angles = arr([rng.choice(ANGLES) for _ in range(shape[-1])], dtype_of(s))
     else:
         angles = arr([rng.choice(ANGLES) for _ in range(int(np.prod(shape)))], dtype_of(s)).reshape(shape)
-    return QURotationOperator(angles, s)
+    return QURotationOperator(maybe_numpy(rng, angles), s)
 
 
 def mk_hwp(rng, s):
